@@ -112,8 +112,8 @@ def run_strategy_case(ctx, kind_, idx):
             ctx.monitor("c06:adaptive_windows")
             L, Rr = observed_windows(ys, y, n, k, scale)
             g = right / left
-            wantL = min(max(g * a / (1 + g), 1), a)
-            wantR = min(max(a / (1 + g), 1), a)
+            wantL = min(max(g * a / (1 + g), 1), a - 1)
+            wantR = min(max(a / (1 + g), 1), a - 1)
             bad = None
             if right > left and Rr > L:
                 bad = "larger jump on the right but larger window on the right"
